@@ -610,7 +610,11 @@ def run(ctx):
     os.makedirs(gdir, exist_ok=True)
     gfiles = []
     for k in range(n_generated):
-        src, _ = dsem_gen.generate(ctx.seed * 100003 + k, 3)
+        try:
+            src, _ = dsem_gen.generate(ctx.seed * 100003 + k, 3)
+        except (RecursionError, ValueError, KeyError, IndexError):      # generator limits, not the subject of this check
+            ctx.add("generator_failures")
+            continue
         gf = os.path.join(gdir, f"g{k:04d}.dora")
         with open(gf, "w") as f:
             f.write(src)
